@@ -1,10 +1,14 @@
 (** C15 — every legal name can be created and found again.  Proved: for EVERY name of 1..255 UTF-16 units (no NUL,
     no U+FFFF) the long-name set built by the model of make_lfn_entry decodes, through the model of the reader, to
     exactly that name — every length, every 13-unit boundary and surrogate pairs straddling slots are instances — and
-    has the slot count, ordinals and checksum the specification asks for.  Alias uniqueness and create-then-find at
-    the directory level are checked on the implementation for every length and code page. *)
+    has the slot count, ordinals and checksum the specification asks for; an entry carrying that set matches the name
+    in the lookup and is shown under exactly that name, also in the form the directory reader returns it
+    (C15_long_name_found); appended to ANY directory in which the name was not found it is found (C15_found_in_extended);
+    and what the reader returns can be written again and read again unchanged (C15_stable), so the name survives every
+    later rewrite of its directory.  Alias uniqueness and the short-name (OEM code page) side are checked on the
+    implementation for every length and code page. *)
 From Coq Require Import ZArith List Bool Sorted.
-From PyFatV Require Import Base.Bytes Base.PyEnv Gen.Pure Model.Codec Model.Dir Proofs.Names.
+From PyFatV Require Import Base.Bytes Base.PyEnv Gen.Pure Model.Codec Model.Dir Proofs.Names Proofs.DirCodec.
 Import ListNotations.
 Open Scope Z_scope.
 
@@ -19,3 +23,17 @@ Proof. exact lfn_roundtrip. Qed.
 Print Assumptions C15_lfn.
 Example C15_255 : let u := repeat 97 255 in lfn_units (make_lfn u [65;32;32;32;32;32;32;32;32;32;32]) = u /\ length (make_lfn u [65;32;32;32;32;32;32;32;32;32;32]) = 20%nat.
 Proof. vm_compute. split; reflexivity. Qed.
+
+Theorem C15_long_name_found : forall u sfn n e0, Forall unit_ok u -> 1 <= lenZ u <= 255 -> n_u n = u ->
+  let e := set_lfn e0 (Some (make_lfn u sfn)) in
+  name_matches n e = true /\ name_matches n (canon e) = true /\ shown_name e = NLong u /\ shown_name (canon e) = NLong u.
+Proof. exact long_name_found. Qed.
+Print Assumptions C15_long_name_found.
+Theorem C15_found_in_extended : forall es n e, search_entry es n = None -> name_matches n e = true -> is_special e = false -> is_volid e = false ->
+  search_entry (es ++ [e]) n = Some e.
+Proof. exact found_in_extended_dir. Qed.
+Print Assumptions C15_found_in_extended.
+Theorem C15_stable : forall es k f, Forall entry_ok es -> (0 < k)%nat ->
+  scan_slots (nslots_dir es + S f) (ser_dir (map canon es) ++ repeat 0 (32 * k)) [] [] = Ok (map canon es, [], true).
+Proof. exact read_write_read_stable. Qed.
+Print Assumptions C15_stable.
